@@ -2,9 +2,9 @@ package props
 
 import (
 	"context"
-	"regexp"
 	"encoding/json"
 	"fmt"
+	"regexp"
 	"sort"
 	"strings"
 	"testing"
@@ -309,10 +309,10 @@ type c09Case struct {
 }
 
 type wakeWatch struct {
-	pubs  []actions.PublishNotifier
-	ids   []uuid.UUID
-	anyS  actions.AnySubModifiedNotifier
-	anyT  actions.AnyTopicModifiedNotifier
+	pubs []actions.PublishNotifier
+	ids  []uuid.UUID
+	anyS actions.AnySubModifiedNotifier
+	anyT actions.AnyTopicModifiedNotifier
 }
 
 func watchWakes(st *c09State) *wakeWatch {
